@@ -79,7 +79,8 @@ func (p *Parser) parseHeader(data []byte) (header *parser.PacketHeader, buf []by
 			return
 		}
 
-		attachments, err := strconv.ParseUint(string(data[:i]), 10, 0)
+		// The attachment count is kept in an int: it must fit one (31 bits, to be valid for every platform).
+		attachments, err := strconv.ParseUint(string(data[:i]), 10, 31)
 		if err != nil {
 			return nil, nil, "", err
 		}
